@@ -73,6 +73,7 @@ type chanRec struct {
 	point  wire.OutPoint
 	state  *chanstate.OpenChannel
 	height uint64 // remote commit height written so far
+	logSkew uint64 // non-add local updates covered so far (LocalLogIndex - LocalHtlcIndex)
 }
 
 func scidOf(idx int) lnwire.ShortChannelID {
@@ -95,10 +96,14 @@ func mkChanCfg(keys []*btcec.PublicKey) channeldb.ChannelConfig {
 	}
 }
 
-func mkCommit(height uint64, htlcIdx uint64) channeldb.ChannelCommitment {
+// mkCommit builds a commitment record. logSkew is the number of non-add
+// local updates (update_fee, settles, fails) sent so far: the local LOG index
+// counts them, the local HTLC index does not, so on a real channel the two
+// differ as soon as anything but an add was sent.
+func mkCommit(height uint64, htlcIdx uint64, logSkew uint64) channeldb.ChannelCommitment {
 	return channeldb.ChannelCommitment{
 		CommitHeight:   height,
-		LocalLogIndex:  htlcIdx,
+		LocalLogIndex:  htlcIdx + logSkew,
 		LocalHtlcIndex: htlcIdx,
 		LocalBalance:   lnwire.NewMSatFromSatoshis(500_000),
 		RemoteBalance:  lnwire.NewMSatFromSatoshis(490_000),
@@ -133,8 +138,8 @@ func createChannel(r *simcore.Run, db *channeldb.DB, idx int) *chanRec {
 		RemoteNextRevocation:    remote[3],
 		RevocationProducer:      shachain.NewRevocationProducer(root),
 		RevocationStore:         shachain.NewRevocationStore(),
-		LocalCommitment:         mkCommit(0, 0),
-		RemoteCommitment:        mkCommit(0, 0),
+		LocalCommitment:         mkCommit(0, 0, 0),
+		RemoteCommitment:        mkCommit(0, 0, 0),
 		Db:                      db.ChannelStateDB(),
 		FundingTxn:              dummyTx,
 	}
@@ -149,8 +154,11 @@ func createChannel(r *simcore.Run, db *channeldb.DB, idx int) *chanRec {
 // what SignNextCommitment does to the database for the circuit map's purposes.
 func (c *chanRec) sign(next uint64) error {
 	c.height++
+	// every signature covers 0-2 further non-add updates (deterministic in
+	// the channel index and height, no tape draw)
+	c.logSkew += (c.height + uint64(c.idx)) % 3
 	diff := &channeldb.CommitDiff{
-		Commitment: mkCommit(c.height, next),
+		Commitment: mkCommit(c.height, next, c.logSkew),
 		CommitSig: &lnwire.CommitSig{
 			ChanID: lnwire.NewChanIDFromOutPoint(c.point),
 		},
